@@ -36,7 +36,9 @@ def pool_descs():
 
 DECIMALS = [{"hours": 0.5}, {"minutes": 1.5}, {"seconds": 0.1}, {"hours": 0.1}, {"days": 1, "seconds": 0.25},
             {"minutes": -0.3}, {"seconds": 86399.9}, {"hours": 24.0}, {"years": 1, "hours": 0.5}, {"weeks": 1},
-            {"days": 7}, {"hours": 168}, {"seconds": 604800.0}, {}]
+            {"days": 7}, {"hours": 168}, {"seconds": 604800.0}, {},
+            {"hours": 1.1}, {"minutes": 66}, {"hours": 2.2}, {"minutes": 132}, {"hours": 0.07}, {"seconds": 252},
+            {"minutes": 2.05}, {"seconds": 123}, {"seconds": 1}, {"seconds": 1.0000004}, {"seconds": 0.9999996}]
 
 
 def model(desc):
@@ -176,6 +178,10 @@ def run_unit(unit, ctx):
         ds = [{"years": y, "months": mo, "days": d} for y in (-1, 0, 1, 2) for mo in (0, 1, 12) for d in (0, 1, 5, 6, -1)]
         ds += [{"days": d} for d in (359, 360, 361, 364, 365, 366, 367, 29, 30, 31, 719, 720, 730, 731, 732, 390, 395, 396)]
         ds += [{"weeks": 52}, {"weeks": 53}, {"hours": 8760}, {"hours": 8640}, {"hours": 8784}]
+        # week form against nominal durations whose rough length is a whole number of weeks (never equal)
+        ds += [{"weeks": 30}, {"months": 7}, {"weeks": 60}, {"months": 14}, {"weeks": 5}, {"months": 1, "days": 5},
+               {"years": 1, "days": -1}, {"years": 1, "days": -5}, {"years": 1, "days": -2}, {"weeks": 365}, {"years": 7},
+               {"weeks": 360}, {"weeks": 366}, {"days": 210}, {"months": 7, "days": -210}, {"weeks": 0}]
         objs = [impl.build_duration(d) for d in ds]
         ms = [model(d) for d in ds]
         for i in range(len(ds)):
